@@ -13,6 +13,42 @@ LEAVES = [("a", "v", np.array([1.5, -0.5])), ("b", "v", np.array([0.75, 2.0])), 
 NIN = 5
 UN = ("neg", "tanh", "relu")
 
+def programs_core(n):
+    """n op applications over the core alphabet {tanh, add, mul, sum, unbind}, kept only if every op application is an ancestor
+    of the root (no dead code): the distinct DAG shapes of depth/width n without the combinatorial padding"""
+    out = []
+    def rec(types, prog, k):
+        if k == 0:
+            if _live(prog): out.append(tuple(prog))
+            return
+        m = len(types)
+        for i in range(m):
+            rec(types + [types[i]], prog + [("tanh", i)], k - 1)
+            if types[i] == "v":
+                rec(types + ["s"], prog + [("sum", i)], k - 1)
+                rec(types + ["s", "s"], prog + [("unbind", i)], k - 1)
+        for i in range(m):
+            for j in range(i, m):
+                t = "v" if "v" in (types[i], types[j]) else "s"
+                for op in ("add", "mul"):
+                    rec(types + [t], prog + [(op, i, j)], k - 1)
+    rec([t for _, t, _ in LEAVES], [], n)
+    return out
+
+def _live(prog):
+    anc = value_ancestors(prog)
+    seen, todo = set(), [max(anc)]
+    while todo:
+        k = todo.pop()
+        if k in seen: continue
+        seen.add(k); todo += anc[k]
+    pos = len(LEAVES)
+    for st in prog:
+        outs = [pos, pos + 1] if st[0] == "unbind" else [pos]
+        if not any(o in seen for o in outs): return False
+        pos += len(outs)
+    return True
+
 def programs(n):
     """all programs with exactly n op applications; a program is a tuple of (op, operand indices)"""
     out = []
@@ -224,10 +260,12 @@ def all_cases(tier):
         for p in programs(n):
             for rg in subsets:
                 out.append({"prog": [list(s) for s in p], "rg": list(rg), "orders": True})
-    nlast = 3 if tier == "quick" else 4
     if tier == "quick":
         for p in programs(3):
             out.append({"prog": [list(s) for s in p], "rg": [True, True, True], "orders": False})
+    else:
+        for p in programs_core(4):
+            out.append({"prog": [list(s) for s in p], "rg": [True, True, True], "orders": True})
     return out
 
 def replay(case):
@@ -246,7 +284,7 @@ def run(tier, seed):
                    "the basis; leaf gradients vs forward-mode Jacobian of the whole program; backward functions invoked exactly once / never; "
                    "all topological construction orders give bitwise-equal gradients; states = distinct programs, transitions = op applications; "
                    "non-trivial = some leaf has a non-zero expected gradient"
-                   % ("n <= 2 x all 7 non-empty requires_grad subsets, n = 3 with all leaves requiring grad" if tier == "quick" else "n <= 3 x all 7 non-empty requires_grad subsets"),
+                   % ("n <= 2 x all 7 non-empty requires_grad subsets, n = 3 with all leaves requiring grad" if tier == "quick" else "n <= 3 x all 7 non-empty requires_grad subsets, plus n = 4 over the core alphabet {tanh, add, mul, sum, unbind} without dead code, all leaves requiring grad"),
            }
     return {"level": "model_checking", "violations": r["violations"], "coverage": cov,
             "assumptions": ["programs whose relu input is exactly 0 are not compared (kink)", "leaf values fixed: a=(1.5,-0.5), b=(0.75,2.0), s=-1.25"]}
